@@ -189,6 +189,28 @@ def plan(prop, tier):
             steps.append(S("c17-fuzz", c, profile="dbg", shards=8, scale=0.25, crash_is_violation=True))
         for c in ["inv-default", "inv-naive", "inv-serde-strict"]:
             steps.append(S("c17-fuzz", c, shards=8, scale=0.5, crash_is_violation=True))
+        # Miri: undefined behaviour, out-of-bounds, invalid SIMD loads, unreachable_unchecked
+        mcfgs = ["default-avx2", "unsafe-avx2", "unsafe-naive", "unsafe"] if q else \
+            ["default-avx2", "unsafe-avx2", "unsafe-naive", "unsafe", "default", "naive", "static-sse41", "unsafe-static-avx2", "unsafe-lowmem-b", "serde-strict-avx2"]
+        for c in mcfgs:
+            steps.append(S("c17-fuzz", c, profile="dev", tool="miri", shards=12, scale=0.0025 if q else 0.03, timeout=4 * 3600))
+        # every compiled SIMD back end called directly under Miri (hooks H4/H5)
+        P17 = {"property": "C17"}
+        for c in (["default-avx2"] if q else ["default-avx2", "unsafe-avx2", "static-sse41"]):
+            pb = dict(P17, expect_dist_backends=DIST_BACKENDS.get(c, 6 if "avx2" in c else 3))
+            pa = dict(P17, expect_agg_backends=AGG_BACKENDS.get(c, 5 if "avx2" in c else 2))
+            steps.append(S("c02-body", c, profile="dev", tool="miri", shards=16, scale=0.0005 if q else 0.005, params=pb, timeout=4 * 3600))
+            steps.append(S("c01-agg", c, profile="dev", tool="miri", shards=8, scale=0.0005 if q else 0.005, params=pa, timeout=4 * 3600))
+        # AddressSanitizer: bigger workloads than Miri can afford
+        acfgs = ["default", "unsafe"] if q else ["default", "unsafe", "static-sse41", "unsafe-static-avx2", "naive", "unsafe-lowmem-b", "serde-unsafe-strict"]
+        for c in acfgs:
+            steps.append(S("c17-fuzz", c, tool="asan", shards=8, scale=0.25 if q else 1.0, timeout=2 * 3600))
+            pb = dict(P17, expect_dist_backends=DIST_BACKENDS.get(c, 3))
+            steps.append(S("c02-body", c, tool="asan", shards=8, scale=1.0, params=pb, timeout=2 * 3600))
+        if not q:
+            # valgrind memcheck on the plain release binaries of the `unsafe` builds (second opinion)
+            for c in ["unsafe", "unsafe-static-avx2", "unsafe-naive"]:
+                steps.append(S("c17-fuzz", c, tool="valgrind", shards=16, scale=0.02, timeout=4 * 3600))
         # enabling `unsafe` changes no result: transcripts
         for c in ["naive", "default", "unsafe", "unsafe-naive", "unsafe-static-avx2", "static-avx2"]:
             steps.append(S("c07-transcript", c, shards=4, params={"property": "C17"}))
@@ -201,7 +223,64 @@ TRANSCRIPT_GROUPS = {
 }
 
 
-def post_process(prop, tier, seed, steps, monitors_out, run_single):
+NOSTD_FEATURE_SETS = ["", "t-opt-default", "t-opt-embedded-default", "t-simd",
+                      "t-opt-low-memory-buckets,t-strict-parser", "t-simd,t-unsafe,t-opt-default"]
+
+
+def nostd_check(helpers, out):
+    """Build and run the #![no_std], allocator-less binary in several feature sets (C18)."""
+    import subprocess
+    crate = os.path.join(helpers.ROOT, "harness-nostd")
+    ran = []
+    for i, feats in enumerate(NOSTD_FEATURE_SETS):
+        tdir = os.path.join(helpers.BUILD, "t", "nostd-%d" % i)
+        env = helpers.base_env()
+        env["CARGO_TARGET_DIR"] = tdir
+        env["RUSTFLAGS"] = "--cfg fast_tlsh_verif"
+        cmd = ["cargo", "build", "--locked", "--release", "--features", feats]
+        p = subprocess.run(cmd, cwd=crate, env=env, stdout=subprocess.PIPE, stderr=subprocess.STDOUT, text=True)
+        info = {"config": "nostd[%s]" % feats, "profile": "rel", "tool": "native", "monitor": "nostd", "params": {"features": feats}}
+        if p.returncode != 0:
+            out["violations"].append({
+                "signature": "nostd|build|%s" % feats, "monitor": "nostd",
+                "what": "the #![no_std] allocator-less program no longer builds/links with fast-tlsh features [%s]: %s" % (feats, " / ".join(p.stdout.strip().splitlines()[-6:])[-700:]),
+                "case": {"nostd_features": feats, "build_output_tail": "\n".join(p.stdout.splitlines()[-40:])}, "step_info": info})
+            continue
+        binary = os.path.join(tdir, "release", "tlsh-verif-nostd")
+        nm = subprocess.run(["nm", binary], stdout=subprocess.PIPE, stderr=subprocess.DEVNULL, text=True).stdout
+        alloc_syms = [l for l in nm.splitlines() if "__rust_alloc" in l or "__rust_realloc" in l or "__rg_alloc" in l]
+        try:
+            r = subprocess.run([binary], stdout=subprocess.PIPE, stderr=subprocess.STDOUT, text=True, timeout=120)
+            rc, txt = r.returncode, r.stdout
+        except subprocess.TimeoutExpired:
+            out["inconclusive"].append("nostd[%s]: watchdog fired" % feats)
+            continue
+        if rc != 0 or "nostd-ok" not in txt:
+            out["violations"].append({
+                "signature": "nostd|run|%s|rc=%s" % (feats, rc), "monitor": "nostd",
+                "what": "the allocator-less program built with [%s] failed its self-check (exit status %s, output %r)" % (feats, rc, txt[-200:]),
+                "case": {"nostd_features": feats, "exit_status": rc}, "step_info": info})
+        elif alloc_syms:
+            out["violations"].append({
+                "signature": "nostd|alloc-symbols|%s" % feats, "monitor": "nostd",
+                "what": "the allocator-less program references the Rust allocator API: %s" % alloc_syms[:3],
+                "case": {"nostd_features": feats}, "step_info": info})
+        else:
+            ran.append(feats or "(none)")
+        out["evaluations"] += 1
+    out["coverage"]["nostd_feature_sets_built_and_run"] = ran
+    out["distinct"] = out.get("distinct", 0) + len(ran)
+    out.setdefault("samples", []).append({"monitor": "nostd", "case": {"features": NOSTD_FEATURE_SETS, "ran_ok": ran}})
+    out["rule"] = "the #![no_std] #![no_main] program in /verif/harness-nostd (no alloc crate, no global allocator) is built against the working tree in %d feature sets, checked for allocator symbols and executed (generate -> format -> parse -> compare -> binary round trip with a built-in known answer for all five variants)" % len(NOSTD_FEATURE_SETS)
+
+
+def post_process(prop, tier, seed, steps, monitors_out, helpers):
+    run_single = helpers.run_single
+    if prop == "C18":
+        out = {"violations": [], "inconclusive": [], "evaluations": 0, "coverage": {}}
+        if not helpers.only or helpers.only == "nostd":
+            nostd_check(helpers, out)
+        return out
     if prop not in ("C07", "C17"):
         return None
     out = {"violations": [], "inconclusive": [], "evaluations": 0, "coverage": {}}
@@ -260,6 +339,43 @@ def post_process(prop, tier, seed, steps, monitors_out, run_single):
 
 
 def replay_special(prop, rp, path):
+    if rp.get("monitor") == "nostd":
+        import types
+        import main as M
+        out = {"violations": [], "inconclusive": [], "evaluations": 0, "coverage": {}}
+        helpers = types.SimpleNamespace(base_env=M.base_env, BUILD=M.BUILD, ROOT=M.ROOT)
+        global NOSTD_FEATURE_SETS
+        saved = NOSTD_FEATURE_SETS
+        NOSTD_FEATURE_SETS = [rp.get("case", {}).get("nostd_features", "")]
+        try:
+            nostd_check(helpers, out)
+        finally:
+            NOSTD_FEATURE_SETS = saved
+        if out["violations"]:
+            print("VIOLATION property=%s replay=%s" % (prop, path))
+            print("  what: %s" % out["violations"][0]["what"][:600])
+            return 1
+        print("replay: the allocator-less program builds and passes its self-check")
+        return 0
+    if rp.get("monitor") == "c07-transcript" and rp.get("case", {}).get("config_a"):
+        import main as M
+        c = rp["case"]
+        recs = []
+        for cfg in (c["config_a"], c["config_b"]):
+            b = M.build(cfg, "rel", "native")
+            blk = int(c["op_index"]) // 256
+            st = Step("c07-transcript", cfg, shards=1, params={"dump_block": blk})
+            od = os.path.join(M.BUILD, "runs", prop + "-replay", cfg)
+            os.makedirs(od, exist_ok=True)
+            r = M.run_shard(st, b, "quick", int(rp.get("seed", os.environ.get("VERIF_SEED", "0") or 0)), 0, od)
+            lines = r["report"]["samples"][0]["records"] if r["report"] else []
+            recs.append([l for l in lines if l.startswith("%d|" % int(c["op_index"]))])
+        if recs[0] != recs[1]:
+            print("VIOLATION property=%s replay=%s" % (prop, path))
+            print("  what: %s VERSUS %s" % (recs[1], recs[0]))
+            return 1
+        print("replay: both configurations agree on the recorded operation")
+        return 0
     return None
 
 
